@@ -396,6 +396,14 @@ func runC08Fault(c *FSFaultCase) *sim.Outcome {
 	if o.Violation != "" {
 		return o
 	}
+	if c.K%2 == 1 {
+		// the user whose source failed gives up at once
+		w.End(c.Who)
+		s.Exec(SOp{K: "flush"})
+		if o.Violation != "" {
+			return o
+		}
+	}
 	// the parties go on: either in the session they have or with a new attempt
 	s.Exec(SOp{K: "pp", W: 0, I: 1, L: 4})
 	w.AgeClock(0, 3*60e9)
@@ -403,6 +411,11 @@ func runC08Fault(c *FSFaultCase) *sim.Outcome {
 	w.Query(1)
 	s.Exec(SOp{K: "flush"})
 	s.Exec(SOp{K: "pp", W: 1, I: 0, L: 4})
+	// and whatever state the fault left behind, the users can close their conversations for good
+	for p := 0; p < 2 && o.Violation == ""; p++ {
+		w.End((c.Who + p) & 1)
+		s.Exec(SOp{K: "flush"})
+	}
 	for k := range r.events {
 		o.Class(k)
 	}
